@@ -123,13 +123,28 @@ def atom_names(n, hmask):
     return [(f'H{i + 1}' if hmask >> i & 1 else f'C{i + 1}') for i in range(n)]
 
 
-def res_molecule(name, vec, seed, tag, hmask=0):
+def res_molecule(name, vec, seed, tag, hmask=0, same=False):
+    """same=True: every residue carries the SAME residue name (a homopolymer whose residues differ in size,
+    e.g. capped termini); residues are then told apart by their numbers only."""
     names = atom_names(sum(vec), hmask)
     atoms, k = [], 0
     for p, ln in enumerate(vec):
         for _ in range(ln):
-            atoms.append((names[k], 'R' + 'ABCDEF'[p], p + 1))
+            atoms.append((names[k], 'RA' if same else 'R' + 'ABCDEF'[p], p + 1))
             k += 1
+    if same:
+        # built from the components directly: System identifies a residue kind by (name, size) and cannot hold two
+        # such residues with different atom names (outside C11's premise), which a homopolymer needs
+        from gaddlemaps.components import AtomGro, Molecule, Residue
+        from mcx.build import molecule_top
+        pts = generic_points(k, seed, tag=tag)
+        top = molecule_top(name, atoms, en.chain(k))
+        residues, i = [], 0
+        for p, ln in enumerate(vec):
+            residues.append(Residue([AtomGro([p + 1, 'RA', atoms[i + j][0], i + j + 1] + list(map(float, pts[i + j])))
+                                     for j in range(ln)]))
+            i += ln
+        return Molecule(top, residues)
     return molecule(name, atoms, en.chain(k), generic_points(k, seed, tag=tag))
 
 
@@ -521,9 +536,14 @@ class C10(Check):
     # ------------------------------------------------------------------ (c)
     def _protein(self, case, R, seed):
         from gaddlemaps import guess_protein_restrains
+        if 'same' not in case:
+            for same in (0, 1):
+                self._protein(dict(case, same=same), R, seed)
+            return
+        same = bool(case['same'])
         v1, v2 = tuple(case['v1']), tuple(case['v2'])
-        m1 = cached(('prot', 1, v1, seed), lambda: res_molecule('PRO', v1, seed, 300 + len(v1)))
-        m2 = cached(('prot', 2, v2, seed), lambda: res_molecule('PRO', v2, seed, 400 + len(v2)))
+        m1 = cached(('prot', 1, v1, seed, same), lambda: res_molecule('PRO', v1, seed, 300 + len(v1), same=same))
+        m2 = cached(('prot', 2, v2, seed, same), lambda: res_molecule('PRO', v2, seed, 400 + len(v2), same=same))
         assert [len(r) for r in m1.residues] == list(v1) and [len(r) for r in m2.residues] == list(v2), \
             'harness: residues not recognised as built'
         try:
@@ -536,7 +556,7 @@ class C10(Check):
             if err is None:
                 R.violation('protein/unequal-residue-count-not-refused', case, f'returned {list(got)[:40]!r}')
             return
-        cls = f'protein/{len(v1)}-residues'
+        cls = f'protein/{len(v1)}-residues' + ('/one-residue-name' if same else '')
         if err is not None:
             if len(v1) == 1:
                 R.add('info_single_residue_guess_refused', 1)
